@@ -16,7 +16,7 @@ func init() {
 		Rule: "one run = one generated application with CATCH/CROAK on client flags in both modes (in preludes and after HALT) whose external functions return arbitrary FlagSet/FlagReset lists over 0..8+FlagCount-1 (reserved 0..5, TERMINATE, LANG, client flags; FlagCount 0..40) + an input history with restarts; " +
 			"(A) moves, position and client flags after every request must equal the reference model's; (B) a twin whose external results have the indices 0..5 stripped must produce identical outputs, results and stored flag bytes; (C) from the request in which TERMINATE was set every request must report stop and run nothing; " +
 			"non-trivial = at least one CATCH or CROAK whose flag was changed by external code during the run, or a TERMINATE block of >= 2 requests, or a reserved index requested; distinct = distinct sequences of (path, flags)",
-		Runs:       map[string]int{"quick": 40000, "thorough": 1200000},
+		Runs:       map[string]int{"quick": 40000, "thorough": 3000000},
 		MaxSeconds: map[string]int{"quick": 40, "thorough": 900},
 		Run:        runC06,
 		Assumptions: []string{
